@@ -100,7 +100,7 @@ func cmdCheck(args []string) int {
 	if *only != "" {
 		var f []*Block
 		for _, b := range blocks {
-			if strings.Contains(b.Key, *only) {
+			if strings.Contains(b.PkgPath+"."+b.Key, *only) {
 				f = append(f, b)
 			}
 		}
